@@ -62,6 +62,9 @@ type World struct {
 	// NoDrop: a rolled-back wallet transaction is always re-mined or conflicted on the new branch,
 	// never left pending for ever (used where runs that saw different abandoned blocks are compared)
 	NoDrop bool
+	// CoinbaseToWallet > 0: every generated block's coinbase also pays this amount to a wallet address
+	// (a large immature coin at the tip: what a query with a stale height would wrongly take for mature)
+	CoinbaseToWallet int64
 	// curHeight: height of the block being built (script choice depends on the fork height)
 	curHeight uint64
 }
@@ -381,6 +384,11 @@ func (w *World) BuildBlock(parent *Block, carry []*wire.MsgTx, nRandom int) (*Bl
 	height := parent.Height + 1
 	w.curHeight = height
 	var cbOuts []*wire.TxOut
+	if w.CoinbaseToWallet > 0 {
+		if h, ok := w.walletHash(); ok {
+			cbOuts = append(cbOuts, wire.NewTxOut(w.CoinbaseToWallet, P2WSH(h)))
+		}
+	}
 	nOut := w.R.Range(1, 3)
 	for i := 0; i < nOut; i++ {
 		if h, ok := w.walletHash(); ok && w.R.Chance(50) {
